@@ -88,10 +88,24 @@ func VH_shell_Join() {
 	for i := range ss {
 		ss[i] = string(vMkBytes(vCase("len"), "s"))
 	}
+	var first []string
 	for round := 0; round < 2; round++ {
 		j := Join(ss)
 		vCover("join")
 		fs, ok := Split(j)
+		if round == 0 {
+			first = fs
+			// a different Split in between must not disturb a result already handed out
+			other, _ := Split("x y 'z w' q")
+			vAssert(len(other) == 4, "unrelated Split")
+		} else {
+			vAssert(len(first) == k, "an earlier Split result keeps its length after later calls")
+			for i := range first {
+				if i < k {
+					vAssert(first[i] == ss[i], "an earlier Split result is not disturbed by later calls")
+				}
+			}
+		}
 		vAssert(ok, "Split(Join(ss)) is complete")
 		vAssert(len(fs) == k, "Split(Join(ss)) has as many fields as ss")
 		for i := range fs {
@@ -102,5 +116,29 @@ func VH_shell_Join() {
 		if k == 0 {
 			vAssert(j == "", "Join of the empty list is the empty string")
 		}
+	}
+}
+
+// VH_shell_LongQuoted: a word that needs quoting and contains a long run of ordinary
+// bytes (longer than bufio's default buffer) round-trips through Quote/Join and Split.
+func VH_shell_LongQuoted() {
+	n := vCase("n")
+	b := make([]byte, 0, n+3)
+	b = append(b, vByte("head"), ' ')
+	for i := 0; i < n; i++ {
+		b = append(b, 'x')
+	}
+	b = append(b, vByte("tail"))
+	s := string(b)
+	fs, ok := Split(Quote(s))
+	vCover("long-quoted")
+	vAssert(ok && len(fs) == 1, "Split(Quote(long)) is one complete field")
+	if len(fs) == 1 {
+		vAssert(fs[0] == s, "Split(Quote(long)) returns the word")
+	}
+	gs, ok := Split(Join([]string{"a", s, "b"}))
+	vAssert(ok && len(gs) == 3, "Split(Join(...long...)) has three complete fields")
+	if len(gs) == 3 {
+		vAssert(gs[0] == "a" && gs[1] == s && gs[2] == "b", "Split(Join(...long...)) returns the list")
 	}
 }
